@@ -8,6 +8,7 @@ import (
 	"encoding/json"
 	"errors"
 	"fmt"
+	"net/http"
 	"os"
 	"strings"
 	"sync"
@@ -43,6 +44,10 @@ func TestReplay(t *testing.T) {
 		t.Skipf("nothing to replay in this binary (%s)", what)
 	}
 }
+
+// verifHTTP is the client the harness uses against the running service: a wedged service
+// must show up as a failed request, not as a hung check.
+var verifHTTP = &http.Client{Timeout: 5 * time.Second}
 
 // omniChildMains are entry points of re-executed children of this binary.
 var omniChildMains = map[string]func() int{}
